@@ -1,13 +1,13 @@
 /*@harness
 {"tier":"quick","mode":"width","tus":["src/simulate.c"],"dfcc":false,
- "functions":["print_svalue"],
- "stub_out":["tell_object","check_legal_string"],
+ "functions":["print_svalue","get_line_number"],
+ "stub_out":["tell_object","check_legal_string","simulate.c:find_line"],
  "flags":["--bounds-check","--pointer-check"],"unwind":12,"timeout":600,
  "expect":["sprintf.assertion","h_print_svalue.assertion"],
  "native":null,
  "assumptions":["sprintf model: the destination must hold what the conversion prints; the length of the object name is ghost state (any value up to PATH_MAX - 3, the longest name load_object accepts - virtual objects need no file of that name)",
                 "tell_object / check_legal_string are stubs; string values are not generated (they are passed through, not formatted)"],
- "notes":"C01 for write(value): the local formatting buffer of print_svalue holds the text for every number, real and object name"}
+ "notes":"C01 for write(value) and for the '/file:line' text of every error report: the formatting buffers of print_svalue and get_line_number hold the text for every number, real, object name and source file name"}
 @*/
 #ifdef HAVE_CONFIG_H
 #include <config.h>
@@ -15,6 +15,7 @@
 #include "src/std.h"
 #include "lpc/types.h"
 #include "lpc/object.h"
+#include "lpc/program.h"
 #include "src/main.h"
 #include "vharness.h"
 #include <stdarg.h>
@@ -27,6 +28,7 @@ void check_legal_string(const char *s) { }
 int sprintf(char *buf, const char *fmt, ...) {
   size_t need;
   if (v_streq(fmt, "OBJ(/%s)")) need = 5 + G_name_len + 1 + 1;
+  else if (v_streq(fmt, "/%s:%d")) need = 1 + G_name_len + 1 + 11 + 1;
   else if (v_streq(fmt, "%ld") || v_streq(fmt, "%lld")) need = 21;
   else if (v_streq(fmt, "%g")) need = 14;             /* -1.23457e+308 */
   else { V_ASSERT(0, "harness-sanity: unexpected call: sprintf format"); need = 1; }
@@ -34,7 +36,9 @@ int sprintf(char *buf, const char *fmt, ...) {
   buf[0] = 0; return 0;
 }
 int snprintf(char *buf, size_t n, const char *fmt, ...) { V_ASSERT(n >= 1 && __CPROVER_w_ok(buf, n), "snprintf is given a destination of the stated size"); buf[0] = 0; return 0; }
-void print_svalue(svalue_t *arg);
+void print_svalue(svalue_t *arg); char *get_line_number(const char *p, const program_t *progp);
+/* find_line answers 'found' with a file name of the ghost length (a program or include file name: any path the file system allows) */
+int V_STATIC(simulate_c, find_line)(const char *p, const program_t *progp, char **ret_file, int *ret_line) { V_DECL(int, line); *ret_file = G_name; *ret_line = line; return 0; }
 
 void h_print_svalue(void) {
   static svalue_t v; static object_t ob;
@@ -46,6 +50,7 @@ void h_print_svalue(void) {
   else if (kind == 1) { v.type = T_NUMBER; v.u.number = num; }
   else { v.type = T_REAL; *(uint64_t *)&v.u.real = bits; }
   V_COVER(kind == 0 && nlen == 3000);
+  if (kind == 3) { static program_t prog; (void)get_line_number("x", &prog); V_COVER(nlen == 300); return; }
   print_svalue(&v);
   V_ASSERT(G_told == 1, "the value is told to the command giver once");
 }
